@@ -145,6 +145,7 @@ class C13World(World):
         self.nonplain_ok = 0
         self.restarts = 0
         self.last_out = {}        # client -> last successful first output tensor
+        self.returned = []        # (call, tensor, bytes, version) of the last few results handed to callers
         self.allowed, self.actnorms = documented_statistics(self.root)
         self.last_outcome = "none"
 
@@ -278,7 +279,14 @@ class C13World(World):
         self.descs[key] = {k: d[k] for k in ("role", "seed", "rows", "store", "rep", "scale") if k in d}
         return key, t
 
+    def _check_returned(self, when):
+        for fn, t, b, v in self.returned:
+            if t._version != v or _bytes(t) != b:
+                raise Violation("previously_returned_tensor_modified", "%s: a tensor returned earlier by %s was changed "
+                                "(version %d -> %d)" % (when, fn, v, t._version))
+
     def _check_pool(self, when):
+        self._check_returned(when)
         for key, s in self.pool.items():
             if s.tensor._version != s.version or _bytes(s.tensor) != s.bytes:
                 raise Violation("caller_tensor_modified", "%s: argument %s (version %d -> %d, bytes %s)" % (
@@ -449,6 +457,11 @@ class C13World(World):
             self.nonplain_ok += 1
         if outs and isinstance(outs[0], torch.Tensor):
             self.last_out[op.get("client", 0)] = outs[0].detach()
+        # results handed to a caller are the caller's tensors from then on: watch the last few of them
+        for o in outs:
+            if isinstance(o, torch.Tensor):
+                self.returned.append((fn, o.detach(), _bytes(o), o._version))
+        del self.returned[:-6]
         rb = b"".join(_bytes(o) for o in outs)
         log.add("ok", rb)
         if op.get("reject"):
